@@ -169,6 +169,117 @@ def run(ck, prog, tier):
     X = vertex()
     outs = Interp(prog, TickHooks()).run(fn, [V(p) for p in fn.params])
     ck.saw('paths', '%d return paths' % len(outs))
+    from ..report import Trial
+    trial = Trial(ck)
+    problem = None
+    try:
+        symbolic(trial, prog, fn, outs, X, T)
+    except AnalysisError as exc:
+        problem = str(exc)
+    if problem is None and not trial.violations:
+        trial.merge_into(ck)
+        return
+    # the structural argument failed: a violation is reported only with a concrete move at which
+    # the extracted path table contradicts the property
+    reason = problem or trial.violations[0]['message']
+    res = witness_search(fn, outs)
+    if res[0] == 'witness':
+        ck.ob(trial.violations[0]['rule'] if trial.violations else 'C17-D1-candidates',
+              'max_rate_t3::witness', False,
+              'max_rate_t3%s reports %s; the per-tick rates of the recurrence are %s (true peak %s, '
+              'first %s, last %s, |jerk| %s): %s. [structural finding: %s]'
+              % (res[1], res[2], res[3][:8], res[4], res[5], res[6], res[7], res[8], reason[:300]),
+              fn.loc(), key=trial.violations[0]['key'] if trial.violations else 'max_rate_t3::witness')
+        for v in trial.violations[1:]:
+            pass
+        return
+    raise AnalysisError('max_rate_t3: %s; but the extracted path table satisfies the property on '
+                        'all %s sampled moves; cannot conclude' % (reason[:400], res[1]))
+
+
+def witness_search(fn, outs):
+    """Evaluate the extracted (path conditions -> reported value) table on a grid of moves and
+    compare with the recurrence: reported <= true peak, >= |first|, >= |last|, shortfall <= |jerk|."""
+    names = ['time', 'rate', 'accel', 'jerk']
+    n = 0
+
+    def points():
+        # moves whose rate parabola has its vertex at chosen positions relative to the move
+        # (before tick 1, around the 1.5-tick windows at both ends, inside, beyond the end),
+        # for small and large jerk of both signs, with rates that do / do not change sign
+        from fractions import Fraction as F
+        for T_ in (1, 2, 3, 4, 5, 6, 7, 9, 12):
+            for j in (0, 1, -1, 2, -2, 1000, -1000):
+                if j == 0:
+                    accels = [0, 3, -3, 4000, -4001]
+                else:
+                    accels = set()
+                    q = 4 if abs(j) >= 1000 else (2 if abs(j) == 2 else 1)
+                    for m4 in range(-4 * 2, 4 * (T_ + 3)):
+                        m = F(m4, 4)
+                        a = F(j) * (F(1, 2) - m)
+                        if a.denominator == 1:
+                            accels.add(int(a))
+                    accels = sorted(accels)
+                for a in accels:
+                    for r in (0, 2400, -2400, 7, -100001):
+                        yield {'time': T_, 'rate': r, 'accel': a, 'jerk': j}
+        for pt in motion.grid_points(names, limit=4000):
+            yield pt
+    for pt in points():
+        T_ = pt['time']
+        rates = [abs(motion.rate_t3_oracle(Sym.const(k)).evaluate(pt)) for k in range(1, T_ + 1)]
+        # the oracle formula contains ROUND only in the library's version; the recurrence rates
+        # are integers
+        peak = max(rates)
+        for o in outs:
+            if o.kind != 'return' or not isinstance(o.value, Sym):
+                continue
+            try:
+                conds = []
+                for c, t in o.state.path:
+                    nc = motion.norm_path_cond(c, t)
+                    if nc is None:
+                        raise KeyError('non-numeric condition')
+                    conds.append(nc)
+            except KeyError:
+                continue
+            try:
+                active = True
+                for e, op in conds:
+                    if not motion._holds(e.evaluate(pt), op):
+                        active = False
+                        break
+                if not active:
+                    continue
+                rep = o.value.evaluate(pt)
+            except ZeroDivisionError:
+                # every earlier test of the path holds at this move and the next quantity divides
+                # by zero: the function raises here
+                return ('witness', '(time=%d, rate=%d, accel=%d, jerk=%d)' % (
+                    pt['time'], pt['rate'], pt['accel'], pt['jerk']), 'a ZeroDivisionError', rates,
+                        peak, rates[0], rates[-1], abs(pt['jerk']),
+                        'the function raises instead of reporting a rate')
+            except (KeyError, TypeError):
+                continue
+            n += 1
+            why = None
+            if rep > peak:
+                why = 'the report exceeds every rate of the move'
+            elif rep < rates[0]:
+                why = 'the report is below the rate at the first tick'
+            elif rep < rates[-1]:
+                why = 'the report is below the rate at the last tick'
+            elif peak - rep > abs(pt['jerk']):
+                why = 'the report falls short of the true peak by more than |jerk|'
+            if why:
+                return ('witness', '(time=%d, rate=%d, accel=%d, jerk=%d)' % (
+                    pt['time'], pt['rate'], pt['accel'], pt['jerk']), rep, rates, peak, rates[0],
+                        rates[-1], abs(pt['jerk']), why)
+    return ('agree', n)
+
+
+def symbolic(ck, prog, fn, outs, X, T):
     n_paths = 0
     for idx, o in enumerate(outs):
         if o.kind != 'return':
